@@ -145,3 +145,62 @@ Definition check_pcase (c : pcase) : bool :=
   pouts_eqb outs (pc_outs c) &&
   zl_eqb (sortz (rs s)) (pc_rs c) && zl_eqb (sortz (ws s)) (pc_ws c) &&
   (pc_select c || zl_eqb (sort_reg (reg s)) (sort_reg (pc_reg c))).
+
+(* ---------------------------------------------------------------------------------------------
+   KQueuePoller (BSD / macOS; on Linux it is driven over a scripted select.kqueue).
+   kreg is the kernel's filter registry as a list of (descriptor, filter). *)
+Definition ENOENT := 2.
+Definition KQ_READ := -1.
+Definition KQ_WRITE := -2.
+
+Definition pair_eqb (a b : Z * Z) : bool := (fst a =? fst b) && (snd a =? snd b).
+Fixpoint pmem (x : Z * Z) (l : list (Z * Z)) : bool :=
+  match l with [] => false | y :: r => pair_eqb x y || pmem x r end.
+Definition padd (x : Z * Z) (l : list (Z * Z)) : list (Z * Z) := if pmem x l then l else x :: l.
+Fixpoint pdel (x : Z * Z) (l : list (Z * Z)) : list (Z * Z) :=
+  match l with [] => [] | y :: r => if pair_eqb x y then pdel x r else y :: pdel x r end.
+
+Inductive kqop :=
+| KRegR (fd e : Z) | KRegW (fd e : Z) | KUnregR (fd e : Z) | KUnregW (fd e : Z)   (* e: errno of the control() call, 0 = none *)
+| KPoll (a : kans)                                                               (* KEvents pairs are (ident, filter) *)
+| KDaemonize.                                                                    (* before_daemonize ; after_daemonize *)
+
+(* what _kqueue_control does with the kernel's answer to one ADD / DELETE *)
+Definition kq_control (add_it : bool) (fd flt e : Z) (g : list (Z * Z)) : list (Z * Z) * pout :=
+  if e =? 0 then
+    (if add_it then (padd (fd, flt) g, ODone)
+     else if pmem (fd, flt) g then (pdel (fd, flt) g, ODone) else (g, ORaise ENOENT))
+  else if e =? EBADF then (g, ODone)
+  else (g, ORaise e).
+
+Definition kq_step (s : pst) (o : kqop) : pst * pout :=
+  match o with
+  | KRegR fd e => let '(g, a) := kq_control true fd KQ_READ e (reg s) in (mkP g (add fd (rs s)) (ws s), a)
+  | KRegW fd e => let '(g, a) := kq_control true fd KQ_WRITE e (reg s) in (mkP g (rs s) (add fd (ws s)), a)
+  | KUnregR fd e => let '(g, a) := kq_control false fd KQ_READ e (reg s) in (mkP g (del fd (rs s)) (ws s), a)
+  | KUnregW fd e => let '(g, a) := kq_control false fd KQ_WRITE e (reg s) in (mkP g (rs s) (del fd (ws s)), a)
+  | KPoll (KErr e) => if e =? EINTR then (s, OReady [] []) else (s, ORaise e)
+  | KPoll (KEvents l) =>
+    (s, OReady (map fst (filter (fun p => snd p =? KQ_READ) l)) (map fst (filter (fun p => snd p =? KQ_WRITE) l)))
+  | KPoll (KSel _ _) => (s, ODone)
+  | KDaemonize =>
+    (mkP (fold_right (fun fd g => padd (fd, KQ_WRITE) g) (fold_right (fun fd g => padd (fd, KQ_READ) g) [] (rs s)) (ws s))
+         (rs s) (ws s), ODone)
+  end.
+
+Fixpoint runk (s : pst) (ops : list kqop) : pst * list pout :=
+  match ops with
+  | [] => (s, [])
+  | o :: r => let '(s1, a) := kq_step s o in let '(s2, l) := runk s1 r in (s2, a :: l)
+  end.
+
+Record kcase := mkKC { kc_ops : list kqop; kc_outs : list pout; kc_rs : list Z; kc_ws : list Z; kc_reg : list (Z * Z) }.
+
+(* filters are -1 / -2: shift them so that the sort key stays monotone *)
+Definition sort_kreg (g : list (Z * Z)) : list Z := sortz (map (fun e => fst e * 4 + (snd e + 2)) g).
+
+Definition check_kcase (c : kcase) : bool :=
+  let '(s, outs) := runk p0 (kc_ops c) in
+  pouts_eqb outs (kc_outs c) &&
+  zl_eqb (sortz (rs s)) (kc_rs c) && zl_eqb (sortz (ws s)) (kc_ws c) &&
+  zl_eqb (sort_kreg (reg s)) (sort_kreg (kc_reg c)).
